@@ -128,6 +128,10 @@ func headKind(w []string) (kind, name string) {
 		return "webvpn", ""
 	case n == 2 && w[0] == "interface":
 		return "interface", w[1]
+	case n >= 4 && w[0] == "aaa-server" && (w[2] == "protocol" || contains(w, "host")):
+		return "aaa", w[1]
+	case n == 3 && w[0] == "ldap" && w[1] == "attribute-map":
+		return "ldapmap", w[2]
 	}
 	return "", ""
 }
@@ -179,8 +183,10 @@ func headSlots(w []string) []slot {
 		return []slot{{4, "certmap", true}}
 	case "pool":
 		return []slot{{3, "pool", true}}
-	case "gp", "tg", "user":
+	case "gp", "tg", "user", "aaa":
 		return []slot{{1, kind, true}}
+	case "ldapmap":
+		return []slot{{2, kind, true}}
 	case "tgmap":
 		if w[1] == "default-group" && len(w) == 3 {
 			return []slot{{2, "tg", false}}
@@ -206,6 +212,12 @@ func modeOf(w []string) string {
 		return "webvpn"
 	case "interface":
 		return "interface"
+	case "ldapmap":
+		return "ldapmap"
+	case "aaa":
+		if contains(w, "host") {
+			return "aaa-host"
+		}
 	case "gp":
 		if w[2] == "attributes" {
 			return "gp-attr"
@@ -243,6 +255,17 @@ func subSlots(mode string, w []string) []slot {
 	case "tg-general-attributes":
 		if len(w) == 2 && w[0] == "default-group-policy" {
 			return []slot{{1, "gp", false}}
+		}
+		if len(w) == 2 && w[0] == "authentication-server-group" {
+			return []slot{{1, "aaa", false}}
+		}
+	case "aaa-host":
+		if len(w) == 2 && w[0] == "ldap-attribute-map" {
+			return []slot{{1, "ldapmap", false}}
+		}
+	case "ldapmap":
+		if len(w) >= 4 && w[0] == "map-value" {
+			return []slot{{len(w) - 1, "gp", false}}
 		}
 	case "webvpn":
 		if len(w) == 4 && w[0] == "certificate-group-map" {
@@ -289,7 +312,7 @@ func (b *block) defines() (ref, bool) {
 	w := b.words()
 	kind, name := headKind(w)
 	switch kind {
-	case "acl", "group", "ts", "prop", "cmap", "dynmap", "certmap", "pool", "gp", "tg", "user":
+	case "acl", "group", "ts", "prop", "cmap", "dynmap", "certmap", "pool", "gp", "tg", "user", "aaa", "ldapmap":
 		return ref{kind, name}, true
 	}
 	return ref{}, false
@@ -424,7 +447,7 @@ func (e *executor) note(k string) {
 
 var topWords = map[string]bool{"access-list": true, "access-group": true, "object-group": true, "crypto": true, "tunnel-group": true,
 	"tunnel-group-map": true, "group-policy": true, "ip": true, "username": true, "webvpn": true, "clear": true, "route": true,
-	"interface": true}
+	"interface": true, "aaa-server": true, "ldap": true}
 
 var aclCmdRE = regexp.MustCompile(`^(no )?access-list (\S+) (?:line (\d+) )?(extended|standard) (.*)$`)
 var logRE = regexp.MustCompile(` log( \S+)*$`)
@@ -865,6 +888,14 @@ func (e *executor) execTop(cmd string, w []string) error {
 		}
 		e.open(pos, nil)
 		return nil
+	case "ldapmap":
+		if no || d.findHead(pos) == nil {
+			return fmt.Errorf("ldap attribute-map %s does not exist (such objects are transferred manually): %s", name, cmd)
+		}
+		e.open(pos, nil)
+		return nil
+	case "aaa":
+		return fmt.Errorf("aaa-server definitions must not be changed: %s", cmd)
 	}
 	return fmt.Errorf("command outside the modelled fragment: %s", cmd)
 }
@@ -1047,6 +1078,18 @@ func (d *vdev) content(r ref, depth int) string {
 		}
 		sort.Strings(out)
 		return strings.Join(out, " ")
+	case "aaa", "ldapmap":
+		// host address, interface and the unmodelled sub-lines of the server are the administrator's business
+		var out []string
+		for _, b := range bl {
+			for _, s := range subsOf(b) {
+				if r.kind == "ldapmap" || strings.HasPrefix(s, "ldap-attribute-map ") {
+					out = append(out, s)
+				}
+			}
+		}
+		sort.Strings(out)
+		return strings.Join(out, "; ")
 	case "gp", "tg", "user":
 		var out []string
 		for _, b := range bl {
